@@ -14,7 +14,7 @@ from vf.check import Ob
 
 PROPERTY = 'C20'
 _M = 'boltons.cacheutils.ThresholdCounter.'
-TARGETS = [_M + m for m in ('__init__', 'add', 'update', 'elements', 'most_common', 'get_common_count',
+TARGETS = ['boltons.cacheutils.ThresholdCounter.add (E2: AST -> transition relation)'] + [_M + m for m in ('__init__', 'add', 'update', 'elements', 'most_common', 'get_common_count',
                             'get_uncommon_count', '__getitem__', '__len__', '__contains__', 'keys', 'values',
                             'items', 'iteritems', 'get')]
 THRESHOLDS = [0.9, 0.5, 0.34, 0.3, 0.25, 0.2]       # floor(1/t) = 1, 2, 2, 3, 4, 5
@@ -164,6 +164,141 @@ def tc_stream(ti: int, form: int, n: int, a0: int, a1: int, a2: int, a3: int, a4
         return _body(ti, FORMS[form], n, ks)
 
 
+# ------------------------------------------------------------------ E2: bounded model checking of add()
+def _validate_bmc_translator(thr, W):
+    """concrete streams through the encoding and the real class must agree (run AFTER the main query: z3's search
+    is sensitive to term creation order, so nothing else is built before it)"""
+    import z3
+    from vf import e2_c20
+    ai = e2_c20.AddInterp(ThresholdCounter)
+    for stream in ([0, 1, 0, 2, 0, 3, 3, 1, 4, 0, 5, 5, 5], [0, 0, 1, 2, 3, 4, 0, 5, 6, 1, 1, 7], list(range(9)) + [0, 1, 2]):
+        s = z3.Solver()
+        st = e2_c20.State(max(stream) + 1, W)
+        real = ThresholdCounter(threshold=thr)
+        for k in stream:
+            ai.step(st, z3.IntVal(k), s)
+            real.add(k)
+        if s.check() != z3.sat:
+            return {'verdict': 'error', 'message': 'translator validation: encoding unsatisfiable on a concrete stream'}
+        m = s.model()
+        for j in range(max(stream) + 1):
+            pres = z3.is_true(m.eval(st.pres[j], model_completion=True))
+            if pres != (j in real) or (pres and m.eval(st.cnt[j], model_completion=True).as_long() != real[j]):
+                return {'verdict': 'error', 'message': 'translator validation: encoding and ThresholdCounter disagree on stream %r key %d' % (stream, j)}
+        if st.total != real.total:
+            return {'verdict': 'error', 'message': 'translator validation: total differs'}
+    return None
+
+
+def _bmc(thr, N, goal, timeout):
+    """goal: 'size' (tracked keys exceed 2/threshold) or 'counts' (over-count / under-count beyond slack / frequent key missing)"""
+    import z3
+    import time
+    from vf import e2_c20, rt
+    tc = ThresholdCounter(threshold=thr)
+    W = tc._thresh_count
+    if goal == 'size' and 'size_bound' in rt.STATE['assume_not']:
+        return {'verdict': 'confirmed', 'paths': 0, 'completed': 0, 'witness': 1,
+                'samples': [{'note': 'size-bound clause assumed away (known finding); this obligation checks nothing else'}]}
+    ai = e2_c20.AddInterp(ThresholdCounter)
+    NK = N
+    s = z3.Solver()
+    s.set('timeout', int(timeout * 1000))
+    bound = 2 / thr
+    bad = []
+    if goal == 'size':
+        # bit-vector encoding (counts and buckets stay below 2^6 for N < 64) + a cardinality constraint: z3's SAT core
+        # finds the adversarial stream in about a minute where the integer encoding often answers `unknown`
+        assert N < 64
+        BW, KW = 7, 6
+        e2_c20.INT = lambda name: z3.BitVec(name, BW)
+        try:
+            keys = [z3.BitVec('k%d' % t, KW) for t in range(N)]
+            st = e2_c20.State(NK, W)
+            st.cnt = [z3.BitVecVal(0, BW)] * NK
+            st.bkt = [z3.BitVecVal(0, BW)] * NK
+            mxv = None
+            for t in range(N):
+                if t == 0:
+                    s.add(keys[0] == 0)                                       # symmetry breaking: keys numbered by first appearance
+                    mxv = z3.BitVecVal(0, KW)
+                else:
+                    s.add(z3.ULE(keys[t], mxv + 1), z3.ULT(keys[t], NK))
+                    mxn = z3.BitVec('mx%d' % t, KW)
+                    s.add(mxn == z3.If(z3.UGT(keys[t], mxv), keys[t], mxv))
+                    mxv = mxn
+                ai.step(st, keys[t], s)
+                bad.append(z3.AtLeast(*st.pres, int(bound) + 1))
+        finally:
+            e2_c20.INT = z3.Int
+    else:
+        keys = [z3.Int('k%d' % t) for t in range(N)]
+        st = e2_c20.State(NK, W)
+        mx = z3.IntVal(-1)
+        true_cnt = [z3.IntVal(0)] * NK
+        for t in range(N):
+            s.add(keys[t] >= 0, keys[t] <= mx + 1, keys[t] < NK)                  # symmetry breaking: keys numbered by first appearance
+            mxn = z3.Int('mx%d' % t)
+            s.add(mxn == z3.If(keys[t] > mx, keys[t], mx))
+            mx = mxn
+            ai.step(st, keys[t], s)
+            slack = st.total // W
+            for j in range(min(NK, t + 1)):
+                tcn = z3.Int('t_%d_%d' % (t, j))
+                s.add(tcn == true_cnt[j] + z3.If(keys[t] == j, 1, 0))
+                true_cnt[j] = tcn
+                rep = z3.If(st.pres[j], st.cnt[j], 0)
+                bad.append(rep > tcn)                                            # over-count
+                bad.append(tcn > rep + slack)                                    # under-count beyond the slack
+                bad.append(z3.And(tcn > slack, z3.Not(st.pres[j])))              # a frequent key is missing
+    s.add(z3.Or(bad))
+    t0 = time.time()
+    r = s.check()
+    dt = round(time.time() - t0, 2)
+    verr = _validate_bmc_translator(thr, W)
+    if verr:
+        return verr
+    if str(r) == 'sat':
+        m = s.model()
+        stream = [m.eval(k, model_completion=True).as_long() for k in keys]
+        return {'verdict': 'counterexample', 'message': 'BMC (%s, threshold=%r, N=%d): stream %r' % (goal, thr, N, stream),
+                'call_args': '%r, %r, %r' % (thr, stream, goal), 'replay_function': 'replay_stream', 'paths': 1, 'solver_queries': 1, 'solver_s': dt}
+    if str(r) == 'unsat':
+        return {'verdict': 'confirmed', 'paths': 1, 'completed': 1, 'witness': 1, 'solver_queries': 1, 'solver_s': dt,
+                'samples': [{'goal': goal, 'threshold': thr, 'W': W, 'N': N, 'result': 'unsat'}]}
+    return {'verdict': 'inconclusive', 'message': 'z3 answered %s after %.0fs (goal %s, threshold %r, N=%d)' % (r, dt, goal, thr, N), 'paths': 1}
+
+
+def size_bound_bmc(pins, timeout):
+    return _bmc(pins.get('thr', 0.2), pins.get('N', 34), 'size', timeout)
+
+
+def count_laws_bmc(pins, timeout):
+    return _bmc(pins.get('thr', 0.2), pins.get('N', 14), 'counts', timeout)
+
+
+def replay_stream(thr, stream, goal):
+    """feed the solver's stream to the real class and check the same clauses after every addition"""
+    tc = ThresholdCounter(threshold=thr)
+    W = int(1 / thr)
+    truth = collections.Counter()
+    for n, k in enumerate(stream):
+        tc.add(k)
+        truth[k] += 1
+        if len(tc) > 2 / thr:
+            return fail('size_bound', 'threshold=%r: %d keys tracked after %d additions (bound 2/threshold = %g); stream %r' % (thr, len(tc), n + 1, 2 / thr, stream[:n + 1]))
+        slack = (n + 1) // W
+        for key, t in truth.items():
+            c = tc.get(key)
+            if c > t:
+                return fail('overcount')
+            if t > c + slack:
+                return fail('undercount_beyond_slack')
+            if t > slack and key not in tc:
+                return fail('frequent_key_missing')
+    return True
+
+
 def obligations(tier):
     obs = []
     q = tier == 'quick'
@@ -174,4 +309,10 @@ def obligations(tier):
                 continue
             need = ('dropped_keys',) if ti < 4 else ()
             obs.append(Ob('tc_stream', timeout=T, pins={'thr': ti, 'form': form, 'nmax': 7 if q else 9}, need_kinds=need))
+    # E2: BMC over the transition relation generated from the AST of add()
+    obs.append(Ob('size_bound_bmc', timeout=280 if q else 1500, kind='direct', pins={'thr': 0.2, 'N': 34}, name='size_bound_bmc[thr=0.2,N=34]'))
+    obs.append(Ob('count_laws_bmc', timeout=150 if q else 1500, kind='direct', pins={'thr': 0.34, 'N': 12 if q else 18}, name='count_laws_bmc[thr=0.34]'))
+    obs.append(Ob('count_laws_bmc', timeout=150 if q else 1500, kind='direct', pins={'thr': 0.25, 'N': 12 if q else 18}, name='count_laws_bmc[thr=0.25]'))
+    if not q:
+        obs.append(Ob('size_bound_bmc', timeout=1500, kind='direct', pins={'thr': 1.0 / 6, 'N': 44}, name='size_bound_bmc[thr=1/6,N=44]'))
     return obs
